@@ -134,10 +134,22 @@ theorem decode_items (p : PduDesc) (lf : String) (its : List Item) (hits : p.ite
     (hdec : decOK [] (if p.fin = .withLength then [lf] else []) its = true)
     (htl : tailLast its = true)
     (hguard : guardOf p.dec ≤ sumMinLen its + (if p.fin = .withLength then 4 else 0))
+    (hns : p.dec.all (fun d => !d.isStop) = true)
     (r' : Rec) (hf : ∀ it ∈ its, it.Fits r') (hsize : (itemsBytes r' its).length + 4 < 2 ^ 32) :
     p.decode (wire p its r') = .ok (expected p lf its r') := by
   have hlen := itemsBytes_length_ge its r' hf
+  have hfilt : (decBody p.dec).filter (fun d => !d.isStop) = decBody p.dec := by
+    apply List.filter_eq_self.2
+    intro d hd
+    have hmem : d ∈ p.dec := by
+      cases hpd : p.dec with
+      | nil => rw [hpd] at hd; simp [decBody] at hd
+      | cons x xs =>
+        rw [hpd] at hd
+        cases x <;> simp only [decBody] at hd <;> first | exact hd | exact List.mem_cons_of_mem _ hd
+    exact List.all_eq_true.1 hns d hmem
   unfold PduDesc.items at hits
+  rw [hfilt] at hits
   unfold PduDesc.decode PduDesc.decodeInto wire expected
   split at hits
   · -- length-prefixed
@@ -197,11 +209,11 @@ theorem roundtrip_sound (p : PduDesc) (h : p.checkRoundTrip = true) :
     obtain ⟨lf, its⟩ := pr
     simp only [hitems, Bool.and_eq_true, decide_eq_true_eq, List.all_eq_true, Bool.or_eq_true,
       Bool.not_eq_true', beq_iff_eq] at hmatch
-    obtain ⟨⟨⟨⟨⟨⟨hasg, hdec⟩, htl⟩, hexact⟩, hlf⟩, hcov⟩, hguard⟩ := hmatch
+    obtain ⟨⟨⟨⟨⟨⟨⟨hasg, hdec⟩, htl⟩, hexact⟩, hlf⟩, hcov⟩, hguard⟩, hns⟩ := hmatch
     refine ⟨lf, its, rfl, fun r hf hsize => ?_⟩
     refine ⟨wire p its (norm its r), expected p lf its (norm its r),
       encode_items p lf its hitems hasg r hf,
-      decode_items p lf its hitems hdec htl hguard (norm its r) hf hsize, ?_⟩
+      decode_items p lf its hitems hdec htl hguard (by simpa [List.all_eq_true] using hns) (norm its r) hf hsize, ?_⟩
     intro ft hft
     have hc := hcov ft hft
     unfold expected wire
